@@ -318,6 +318,10 @@ func readPackageInfo(directory string) (*PackageInfo, error) {
 	if err != nil {
 		return packageInfo, validation.NewValidationError(err, packageFilePath)
 	}
+	if packageInfo == nil {
+		// the document is a YAML null
+		packageInfo = &PackageInfo{FilePath: packageFilePath}
+	}
 
 	log.Info().Msgf("Parsed packageInfo with namespace: %v", packageInfo.Namespace)
 	return packageInfo, packageInfo.validate()
